@@ -9,6 +9,7 @@
 """
 import json, math, random
 from vf import core, gen
+from vf.num import gt, nmax as max, nmin as min
 
 PROPERTY = "C10"
 EPS = 2.0 ** -52
@@ -174,7 +175,7 @@ def run_case(case):
             d = max(max(abs(x_ - y_) for x_, y_ in zip(p, q)) for p, q in zip(s0, s1))
             ratio = d / (EPS * n * sc)
             counters['max_ratio_x1000:' + integ] = max(counters.get('max_ratio_x1000:' + integ, 0), int(ratio * 1000))
-            if ratio > case['K'][integ]:
+            if gt(ratio, case['K'][integ]):
                 add('reverse:not-to-rounding:%s' % integ, '%s n=%d dt=%r: max|diff| %.3e = %.1f eps n scale' % (desc, n, sim.dt, d, ratio))
             cells.add(json.dumps(['sym', integ, sorted(opts.items())]))
     for v in viol:
